@@ -155,4 +155,46 @@ def crun (recheck : Bool) (s : CState) : List Nat → CState
     | some s' => crun recheck s' as
     | none => crun recheck s as
 
+/-! ## concurrent EnsurePipe: `ensurePipe(p, false)` = up to three attempts of GetPipe, then CreatePipe -/
+
+inductive Epc where
+  | get (attempt : Nat)            -- about to call GetPipe (one critical section)
+  | createStart (attempt : Nat)    -- GetPipe said "not found": CreatePipe's first locked check
+  | createChecked (attempt : Nat)  -- between CreatePipe's two critical sections
+  | done (r : Res)
+deriving DecidableEq, Repr
+
+structure EState where
+  reg : Reg
+  pcs : List (Pipe × Epc)
+
+/-- the loop counter after an attempt: `for i := 0; i < 3; i++`; falling out of the loop is the "Oops" error -/
+def nextAttempt (n : Nat) : Epc := if n + 1 < 3 then .get (n + 1) else .done .failed
+
+/-- actor `a` performs its next critical section of `ensurePipe` (conditions parse; no deletes in this system) -/
+def estep (s : EState) (a : Nat) : Option EState :=
+  match s.pcs[a]? with
+  | none => none
+  | some (p, .get n) =>
+    match s.reg.find p.name with
+    | some q =>
+      if q.fltCond != p.fltCond || q.tagsCond != p.tagsCond then some { s with pcs := s.pcs.set a (p, .done .conflict) }
+      else some { s with pcs := s.pcs.set a (p, .done (.ok q)) }
+    | none => some { s with pcs := s.pcs.set a (p, .createStart n) }
+  | some (p, .createStart n) =>
+    match s.reg.find p.name with
+    | some _ => some { s with pcs := s.pcs.set a (p, nextAttempt n) }      -- "already exists": warn, next attempt
+    | none => some { s with pcs := s.pcs.set a (p, .createChecked n) }
+  | some (p, .createChecked n) =>
+    match s.reg.find p.name with
+    | some _ => some { s with pcs := s.pcs.set a (p, nextAttempt n) }
+    | none => some { reg := p :: s.reg, pcs := s.pcs.set a (p, nextAttempt n) }   -- created; the loop goes on and re-reads
+  | some (_, .done _) => none
+
+def erun (s : EState) : List Nat → EState
+  | [] => s
+  | a :: as => match estep s a with
+    | some s' => erun s' as
+    | none => erun s as
+
 end Logrange.Registry
